@@ -38,8 +38,17 @@ Definition to_line (pif S vn : Q) (l : line) : lrow :=
      br_g := qmul (qmul (qmul (l_g l) (1 # 1000000)) baseR) (qmul (l_len l) (l_par l)) |}.
 
 (* from_ppc.py:211-226 ; vn = BASE_KV of the TO bus ; length_km = 1, parallel = 1 (defaults);
-   c = B/Zni/omega*1e9/2 with omega = pi*f ; g = G/Zni*1e6/2  <- the halving is in the source *)
+   c = B/Zni/omega*1e9/2 with omega = pi*f ; g = G/Zni*1e6
+   (after the repair "fix: from_ppc no longer halves the line conductance") *)
 Definition from_line (pif S vn : Q) (r : lrow) : line :=
+  let zni := qdiv (sq vn) S in
+  {| l_r := qmul (br_r r) zni;
+     l_x := qmul (br_x r) zni;
+     l_c := qdiv (qmul (qdiv (qdiv (br_b r) zni) pif) q1e9) 2;
+     l_g := qmul (qdiv (br_g r) zni) q1e6;
+     l_len := 1; l_par := 1 |}.
+(* the rule before the repair: g = G/Zni*1e6/2 *)
+Definition from_line_old (pif S vn : Q) (r : lrow) : line :=
   let zni := qdiv (sq vn) S in
   {| l_r := qmul (br_r r) zni;
      l_x := qmul (br_x r) zni;
@@ -47,7 +56,7 @@ Definition from_line (pif S vn : Q) (r : lrow) : line :=
      l_g := qdiv (qmul (qdiv (br_g r) zni) q1e6) 2;
      l_len := 1; l_par := 1 |}.
 
-(* guard of the recorded finding: the branch carries no conductance *)
+(* guard under which the old rule was right: the branch carries no conductance *)
 Definition G21_line (r : lrow) : bool := qeqb (br_g r) 0.
 
 (* ------------------------------------------------------------------ branch classification *)
@@ -123,7 +132,8 @@ Definition b_arg (t : trafo) : F :=
    Returns (trafo, swapped) ; swapped = hv/lv buses exchanged because tvn > fvn. *)
 Definition from_trafo (S fvn tvn : Q) (zk ym : Q) (r x b g tap shift : Q) (rate : F) : trafo * bool :=
   let swapped := negb (qleb tvn fvn) in
-  let sn := fmap (fun ra => if isclose0 ra then MAX_VAL else ra) rate in
+  (* RATE_A zero or NaN -> MAX_VAL (NaN since "fix: from_ppc treats a NaN branch rating like a missing one") *)
+  let sn := Some (match rate with Some ra => if isclose0 ra then MAX_VAL else ra | None => MAX_VAL end) in
   let ratio_1 := if isclose0 tap then tap else qsub tap 1 in
   let step := qmul (qabs ratio_1) q100 in
   ({| t_sn := sn;
@@ -137,6 +147,10 @@ Definition from_trafo (S fvn tvn : Q) (zk ym : Q) (r x b g tap shift : Q) (rate 
       t_pos := qsign ratio_1; t_step := step;
       t_ratio := qltb 0 step;
       t_par := 1; t_df := 1; t_ml := Some q100 |}, swapped).
+
+(* rating -> sn_mva before that repair: NaN stays NaN *)
+Definition sn_of_rate_old (rate : F) : F := fmap (fun ra => if isclose0 ra then MAX_VAL else ra) rate.
+Definition sn_of_rate (rate : F) : F := Some (match rate with Some ra => if isclose0 ra then MAX_VAL else ra | None => MAX_VAL end).
 
 (* ------------------------------------------------------------------ bus rows: loads, sgens, shunts *)
 Inductive pq := Load (p q : Q) | Sgen (p q : Q).
